@@ -44,7 +44,7 @@ func TestC11(t *testing.T) {
 	}
 	restore := faultsql.Install()
 	defer restore()
-	configs := []string{"memory", "memory-paged", "sqlite-paged", "sqlite-file", "sqlite-batch1", "sqlite-batch2", "sqlite-batch3", "sqlite-batch5", "durable", "durable-chunk400", "durable-strict", "durable-strict-chunk400"}
+	configs := []string{"memory", "memory-paged", "sqlite-paged", "sqlite-file", "sqlite-mem", "sqlite-batch1", "sqlite-batch2", "sqlite-batch3", "sqlite-batch5", "durable", "durable-chunk400", "durable-strict", "durable-strict-chunk400"}
 	batches := []int{1, 2, 3, 5, 100, 0, -1}
 	maxLen := run.Scale(6, 18)
 	if !run.Thorough() {
